@@ -61,6 +61,9 @@ P_Directives.vos P_Directives.vok P_Directives.required_vos: P_Directives.v Ast.
 P_Erase.vo P_Erase.glob P_Erase.v.beautified P_Erase.required_vo: P_Erase.v Ast.vo Generated.vo Config.vo Model.vo HookSites.vo Directives.vo Erase.vo
 P_Erase.vio: P_Erase.v Ast.vio Generated.vio Config.vio Model.vio HookSites.vio Directives.vio Erase.vio
 P_Erase.vos P_Erase.vok P_Erase.required_vos: P_Erase.v Ast.vos Generated.vos Config.vos Model.vos HookSites.vos Directives.vos Erase.vos
+P_Hoist.vo P_Hoist.glob P_Hoist.v.beautified P_Hoist.required_vo: P_Hoist.v Ast.vo Generated.vo Config.vo Model.vo
+P_Hoist.vio: P_Hoist.v Ast.vio Generated.vio Config.vio Model.vio
+P_Hoist.vos P_Hoist.vok P_Hoist.required_vos: P_Hoist.v Ast.vos Generated.vos Config.vos Model.vos
 P_Hooks.vo P_Hooks.glob P_Hooks.v.beautified P_Hooks.required_vo: P_Hooks.v Ast.vo Generated.vo Config.vo Model.vo HookSites.vo Erase.vo Shapes.vo
 P_Hooks.vio: P_Hooks.v Ast.vio Generated.vio Config.vio Model.vio HookSites.vio Erase.vio Shapes.vio
 P_Hooks.vos P_Hooks.vok P_Hooks.required_vos: P_Hooks.v Ast.vos Generated.vos Config.vos Model.vos HookSites.vos Erase.vos Shapes.vos
@@ -133,9 +136,9 @@ ToConfig.vos ToConfig.vok ToConfig.required_vos: ToConfig.v Ast.vos Generated.vo
 WfTree.vo WfTree.glob WfTree.v.beautified WfTree.required_vo: WfTree.v Ast.vo Generated.vo
 WfTree.vio: WfTree.v Ast.vio Generated.vio
 WfTree.vos WfTree.vok WfTree.required_vos: WfTree.v Ast.vos Generated.vos
-Properties/C01.vo Properties/C01.glob Properties/C01.v.beautified Properties/C01.required_vo: Properties/C01.v Ast.vo Generated.vo Config.vo Model.vo HookSites.vo Erase.vo Order.vo P_Local.vo P_Hooks.vo Sem.vo P_Sem.vo P_OptCall.vo
-Properties/C01.vio: Properties/C01.v Ast.vio Generated.vio Config.vio Model.vio HookSites.vio Erase.vio Order.vio P_Local.vio P_Hooks.vio Sem.vio P_Sem.vio P_OptCall.vio
-Properties/C01.vos Properties/C01.vok Properties/C01.required_vos: Properties/C01.v Ast.vos Generated.vos Config.vos Model.vos HookSites.vos Erase.vos Order.vos P_Local.vos P_Hooks.vos Sem.vos P_Sem.vos P_OptCall.vos
+Properties/C01.vo Properties/C01.glob Properties/C01.v.beautified Properties/C01.required_vo: Properties/C01.v Ast.vo Generated.vo Config.vo Model.vo HookSites.vo Erase.vo Order.vo P_Local.vo P_Hooks.vo Sem.vo P_Sem.vo P_OptCall.vo P_Hoist.vo
+Properties/C01.vio: Properties/C01.v Ast.vio Generated.vio Config.vio Model.vio HookSites.vio Erase.vio Order.vio P_Local.vio P_Hooks.vio Sem.vio P_Sem.vio P_OptCall.vio P_Hoist.vio
+Properties/C01.vos Properties/C01.vok Properties/C01.required_vos: Properties/C01.v Ast.vos Generated.vos Config.vos Model.vos HookSites.vos Erase.vos Order.vos P_Local.vos P_Hooks.vos Sem.vos P_Sem.vos P_OptCall.vos P_Hoist.vos
 Properties/C02.vo Properties/C02.glob Properties/C02.v.beautified Properties/C02.required_vo: Properties/C02.v Ast.vo Generated.vo Config.vo Model.vo HookSites.vo Erase.vo P_Hooks.vo P_Erase.vo
 Properties/C02.vio: Properties/C02.v Ast.vio Generated.vio Config.vio Model.vio HookSites.vio Erase.vio P_Hooks.vio P_Erase.vio
 Properties/C02.vos Properties/C02.vok Properties/C02.required_vos: Properties/C02.v Ast.vos Generated.vos Config.vos Model.vos HookSites.vos Erase.vos P_Hooks.vos P_Erase.vos
